@@ -406,7 +406,8 @@ def main():
             if p.returncode not in (0, 1):
                 errors.append(f"bounded stand-in {b['script']} crashed: {p.stderr[-600:]}")
                 continue
-            doc = json.loads(p.stdout[p.stdout.index("{"):])
+            jl = [ln for ln in p.stdout.splitlines() if ln.startswith("{")]
+            doc = json.loads(jl[-1] if jl else p.stdout[p.stdout.index("{"):])
             bounded.append(doc)
             for f in doc.get("failures", []):
                 oid = f"bounded:{b['script']}:{f['clause']}"
